@@ -66,6 +66,7 @@ pub fn run_conv(ctx: &mut Ctx, bounds: &[ConvBound], mon: &mut dyn Monitor) {
             cfgs: b.cfgs.clone(),
             depth: b.depth,
             syncs: b.cfgs.len() > 1,
+            partial: 0,
         };
         let mut pools: HashSet<u64> = HashSet::new();
         let shard = ctx.shard;
